@@ -324,6 +324,11 @@ def evaluate(e, env):
             if len(e.args) == 3: return evaluate(e.args[2], env)
             raise Raised("AttributeError")
         if isinstance(e.func, ast.Name) and e.func.id == "locals" and not e.args: return env
+        if isinstance(e.func, ast.Name) and e.func.id == "vars" and len(e.args) == 1 and "vars" not in env:
+            o_ = evaluate(e.args[0], env)
+            if isinstance(o_, (ClassObj, InstObj)): return o_.own
+            if isinstance(o_, dict) and any(isinstance(k_, str) and k_.startswith(".") for k_ in o_): return {k_[1:]: v_ for k_, v_ in o_.items() if isinstance(k_, str) and k_.startswith(".") and not k_.startswith(".__")}
+            raise Raised("TypeError", "vars() argument must have __dict__ attribute")
         if isinstance(e.func, ast.Name) and e.func.id == "delattr" and len(e.args) == 2:
             base = evaluate(e.args[0], env); key = "." + evaluate(e.args[1], env)
             if not isinstance(base, dict) or key not in base: raise Raised("AttributeError")
@@ -584,12 +589,17 @@ class Closure:
         if len(args) != len(ps) or s.node.args.vararg or s.node.args.kwarg: raise Unsupported("lambda arity")
         env2 = dict(s.env); env2.update(zip(ps, args))
         return evaluate(s.node.body, env2)
+class Method:
+    """a function stored in a sample class that binds the instance it is looked up through (like a Python method)"""
+    def __init__(s, fn): s.fn = fn
 class InstObj:
     """sample instance of a sample class: its own attributes, then the class's (and its bases')"""
     def __init__(s, cls, own=None): s.cls, s.own = cls, dict(own or {})
     def lookup(s, n):
         if n in s.own: return True, s.own[n]
-        return s.cls.lookup(n)
+        f_, v_ = s.cls.lookup(n)
+        if f_ and isinstance(v_, Method): return True, PyFn(lambda *a, _m=v_, **k: _m.fn(s, *a, **k))
+        return f_, v_
     def __repr__(s): return "<%s object>" % s.cls.name
 class ClassObj:
     """sample Python class: own attributes (its __dict__) and base classes; hasattr/getattr see inherited attributes,
